@@ -179,7 +179,7 @@ Proof.
   unfold bind at 1, gets. cbn [fst snd]. change (pickles (st0 s)) with (pickles s). rewrite Hp.
   unfold bind at 1, new_inst. cbn [fst snd].
   set (s1 := with_heap (st0 s) _).
-  assert (H1 : Inv cfg M04 [] s1) by (apply Inv_new; [exact H0|reflexivity|split; reflexivity]).
+  assert (H1 : Inv cfg M04 [] s1) by (apply Inv_new; [exact H0|reflexivity|split; [reflexivity|split; reflexivity]]).
   unfold bind at 1.
   destruct (cache_try_get_run cfg M04 (p_k pk) (p_id pk) [length (heap (st0 s))] [] s1 H1) as (a & Et & Hnone). rewrite Et.
   destruct a as [x|]; [eexists; reflexivity|].
